@@ -7,7 +7,7 @@ Bounded (Kani): the real SimpleTermIndex meets the TermIndex stand-in contract (
 """
 import json
 from engine import core, verus, native
-from units import store
+from units import store, iters
 
 LEVEL = "proof"
 ID = "C01"
@@ -19,7 +19,8 @@ def run(rep):
     rep.assume("R0 stand-ins: trait TermIndex/GraphNameIndex with the contract of DESIGN 4.1 (get_index = lookup in an injective ghost map, ensure_index = lookup-or-extend, Err => map unchanged, reserved index never issued); trait Term reduced to its identity key()")
     rep.assume("the real SimpleTermIndex meets that contract: checked only by the bounded Kani unit U-INDEX")
     failed_all = []
-    for name, builder in (("store_graph", store.build_graph), ("store_dataset", store.build_dataset)):
+    for name, builder in (("store_graph", store.build_graph), ("store_dataset", store.build_dataset),
+                          ("iter_graph", iters.build_graph), ("iter_dataset", iters.build_dataset)):
         info = builder(core.REPO)
         rep.cuts.update(info["cuts"])
         for k, v in info["rewrites"].items():
@@ -30,8 +31,11 @@ def run(rep):
     rep.functions += [
         "GenericFastGraph::{insert,remove} (inmem/src/graph.rs)", "GenericLightGraph::{insert,remove} (inmem/src/graph.rs)",
         "GenericFastDataset::{insert,remove} (inmem/src/dataset.rs)", "GenericLightDataset::{insert,remove} (inmem/src/dataset.rs)",
-        "GraphNameIndex::get_graph_name_index default body (inmem/src/index.rs)",
+        "GraphNameIndex::get_graph_name_index / get_graph_name default bodies (inmem/src/index.rs)",
+        "SpoMatchingIterator::next, BcMatchingIterator::next, TermData::{new,uninit,update} (inmem/src/graph/_iter.rs)",
+        "GspoMatchingIterator::next, BcdMatchingIterator::next, CdMatchingIterator::next, GraphNameData::{new,uninit,update} (inmem/src/dataset/_iter.rs)",
     ]
+    rep.assume("R0 stand-ins of U-ITER: BT<'a,TI> for the GAT BorrowTerm<'a>; BTreeSet Iter/Range abstracted as the ghost sequence still to be yielded (next() pops its head); TermMatcher/GraphNameMatcher::matches decide ghost predicates; Term::eq / graph_name_eq decide identity (C02); == on the index type is structural")
     # vacuity canary: a contract demanding the wrong flag must be refuted
     info = store.build_graph(core.REPO)
     bad = info["text"].replace("r is Ok ==> r->Ok_0 == !old(self).view().contains((s.key(), p.key(), o.key())),",
@@ -49,10 +53,11 @@ def run(rep):
                           replay_text="./check C01 --replay <this file>  # replay_src/c01: all histories of <=3 ops over 12 quads on the real stores",
                           confirmed=confirmed)
     rep.not_covered += [
-        "pattern queries (triples_matching / quads_matching and the five matching iterators): not under contract yet",
+        "the dispatch in triples_matching / quads_matching (which index and range is scanned, constant() hints, the closure-based filter/map arms): not under contract; only the five matching iterators' next() are",
         "bulk default methods insert_all/remove_all/remove_matching/retain_matching: see C15 for the stream part",
         "HashSet/BTreeSet/Vec foreign impls (std containers trusted)",
     ]
+    rep.notes.append("Verus: the five matching iterators return exactly the first remaining tuple accepted by all matchers, consuming the rejected ones")
     rep.notes.append("Verus: 8 store mutators proved against a term-level set view for every index type")
 
 
